@@ -404,7 +404,7 @@ Record span_ev := {
   se_keys : nat; se_vals : nat;   (* len(key), len(val) *)
   se_bytes : N                 (* what the span adds to Size *)
 }.
-Inductive col_event := CvSpan (s : span_ev) | CvPanic | CvErr.
+Inductive col_event := CvSpan (s : span_ev) | CvPanic | CvErr (typed : bool).   (* typed: a QrynError (code 400) / a plain error *)
 
 Inductive col_step := StOk (b : batch) (sent : list batch) | StErr | StPanic.
 Definition on_span_cols (h : handler_prog) (sf af : list string) (b : batch) (s : span_ev) : col_step :=
@@ -427,7 +427,7 @@ Fixpoint sent_batches (h : handler_prog) (sf af : list string) (b : batch) (evs 
   match evs with
   | [] => [b]                       (* doParseSpans: the batch is sent after Decode returned nil *)
   | CvPanic :: _ => []              (* tamePanic: only the error response is sent *)
-  | CvErr :: _ => []
+  | CvErr _ :: _ => []
   | CvSpan s :: rest =>
       match on_span_cols h sf af b s with
       | StErr | StPanic => []
@@ -715,3 +715,80 @@ Definition bytes_read (ce : string) (body_len decoded_len : Z) : Z :=
   if String.eqb ce "" then body_len else decoded_len.
 (* the allocation the property's oracle tolerates for a body of that size (spec_ok), in bytes *)
 Definition alloc_bound_bytes (body_len : Z) : Z := (1024 * alloc_bound_kb (body_len / 1024))%Z.
+
+(* ------------------------------------------------------------------------------------------ *)
+(** * 8. Cases of harness pipefuzz: the REAL Build/doParse/doPush/parserDoer/onSpan/onProfile around a SCRIPTED decoder *)
+
+(* status class of a span request at column level *)
+Fixpoint col_status (h : handler_prog) (sf af : list string) (b : batch) (evs : list col_event) : cls :=
+  match evs with
+  | [] => C2xx
+  | CvPanic :: _ => C5xx                                   (* fmt.Errorf("panic: %v"): plain *)
+  | CvErr typed :: _ => if typed then C4xx else C5xx
+  | CvSpan s :: rest =>
+      match on_span_cols h sf af b s with
+      | StErr => C4xx                                      (* New400Error: id widths *)
+      | StPanic => C5xx
+      | StOk b' _ => col_status h sf af b' rest
+      end
+  end.
+
+(* onProfile: Size = calculateProfileSize() = 16 + one per row for each of the six per-row columns it counts
+   (len of the SLICES Ptype, ServiceName, PeriodType, PeriodUnit, PayloadType, Payload) + the bytes of the
+   sample-type and tag strings of the LAST profile; flush and reset above 1 MiB.  tags = those bytes per profile. *)
+Inductive pend := PendNil | PendErr (typed : bool) | PendPanic.
+Definition pend_cls (e : pend) : cls :=
+  match e with PendNil => C2xx | PendErr true => C4xx | PendErr false => C5xx | PendPanic => C5xx end.
+Fixpoint prof_batches (rows : N) (tags : list N) (e : pend) : list N :=      (* rows of every ProfileData sent *)
+  match tags with
+  | [] => match e with PendNil => if (0 <? rows)%N then [rows] else [] | _ => [] end
+  | t :: rest =>
+      let rows' := (rows + 1)%N in
+      if (MiB <? 16 + 6 * rows' + t)%N then rows' :: prof_batches 0 rest e else prof_batches rows' rest e
+  end.
+
+Definition pend_event (e : pend) : list col_event :=
+  match e with PendNil => [] | PendErr t => [CvErr t] | PendPanic => [CvPanic] end.
+
+(* an observed request at an insert service: (service: 0 spans, 1 attributes, 2 profiles, 3 anything else; column lengths) *)
+Definition obatch := (Z * list N)%type.
+Record pcase := {
+  pc_id : Z;
+  pc_spans : option (list span_ev);     (* Some: span route; None: profile route *)
+  pc_tags : list N;                     (* profile route: tag bytes per profile *)
+  pc_end : pend;
+  pc_outcome : outcome;
+  pc_batches : list obatch
+}.
+
+Fixpoint list_N_eqb (a b : list N) : bool :=
+  match a, b with [], [] => true | x :: r, y :: r' => (x =? y)%N && list_N_eqb r r' | _, _ => false end.
+Definition obatch_eqb (a b : obatch) : bool := Z.eqb (fst a) (fst b) && list_N_eqb (snd a) (snd b).
+Definition count_ob (x : obatch) (l : list obatch) : nat := List.length (filter (obatch_eqb x) l).
+(* same multiset: the doPush goroutines of different responses reach the services in any order *)
+Definition same_batches (a b : list obatch) : bool :=
+  Nat.eqb (List.length a) (List.length b) && forallb (fun x => Nat.eqb (count_ob x a) (count_ob x b)) a.
+
+Definition pipe_expected (h : handler_prog) (sf af : list string) (c : pcase) : cls * list obatch :=
+  match pc_spans c with
+  | Some spans =>
+      let evs := (map CvSpan spans ++ pend_event (pc_end c))%list in
+      let sent := sent_batches h sf af (batch0 sf af) evs in
+      (col_status h sf af (batch0 sf af) evs,
+       (map (fun b => (0%Z, map snd (b_spans b))) sent ++ map (fun b => (1%Z, map snd (b_attrs b))) sent)%list)
+  | None =>
+      (pend_cls (pc_end c), map (fun rows => (2%Z, repeat rows 8)) (prof_batches 0 (pc_tags c) (pc_end c)))
+  end.
+
+Definition all_equal (l : list N) : bool := match l with [] => true | x :: r => forallb (N.eqb x) r end.
+
+Definition pipe_mismatch (h : handler_prog) (sf af : list string) (c : pcase) : bool :=
+  let '(k, bs) := pipe_expected h sf af c in
+  negb (accepts (Exact k) (pc_outcome c) && same_batches bs (pc_batches c)).
+(* the property over what was OBSERVED: answered (no abort, hang, goroutine left behind), and every request that
+   reached an insert service is rectangular and of a known type *)
+Definition pipe_spec_violation (c : pcase) : bool :=
+  negb (responded (pc_outcome c) && forallb (fun ob => all_equal (snd ob) && (fst ob <? 3)%Z) (pc_batches c)).
+Definition pipe_mismatches (h : handler_prog) (sf af : list string) (cs : list pcase) : list Z :=
+  map pc_id (filter (pipe_mismatch h sf af) cs).
+Definition pipe_spec_violations (cs : list pcase) : list Z := map pc_id (filter pipe_spec_violation cs).
